@@ -103,8 +103,9 @@ def main():
         for path, v in ls:
             if path and path[-1] == "[]":
                 always_empty[pattern(path[:-1])][0] += 1
-            elif len(path) >= 2 and isinstance(path[-1], int):
-                always_empty[pattern(path[:-1])][1] += 1
+            for i, part in enumerate(path):
+                if isinstance(part, int):               # some list on the way to this leaf is not empty
+                    always_empty[pattern(path[:i])][1] += 1
         rng.shuffle(ls)
         for path, _ in ls[:maxmut]:
             m = mutate(tr, path)
